@@ -74,6 +74,17 @@ def tables(tier):
         for cells in itertools.product((False, True, None), repeat=r * c):
             if None in cells:
                 yield 'sparse-bool', [list(cells[i * c:(i + 1) * c]) for i in range(r)]
+    # thin but very long tables (4096 and 16384 cells): any shortcut that depends on the size of the table is crossed.
+    # One filler weight everywhere except a 2 x 2 corner over {0, 1, 9}; the optimum is still computed exactly.
+    for n_long in (2048, 8192) if not q else (2048,):
+        for corner in itertools.product((0, 1, 9), repeat=4):
+            for filler in (5,) if q else (5, 0):
+                wide = [[filler] * n_long for _ in range(2)]
+                wide[0][0], wide[0][1], wide[1][0], wide[1][1] = corner
+                yield 'long-thin', wide
+                yield 'long-thin', [list(col) for col in zip(*wide)]
+        yield 'long-thin', [[3] * (2 * n_long)]
+        yield 'long-thin', [[0] + [1] * (2 * n_long - 1)]
     # tall / wide tables of huge weights far apart: float64 tells them apart exactly (multiples of 2**54)
     for r, c in ((2, 1), (1, 2), (3, 1), (3, 2), (2, 3)):
         for cells in itertools.product((2 ** 54, 3 * 2 ** 54, 10 * 2 ** 54), repeat=r * c):
@@ -82,6 +93,8 @@ def tables(tier):
 
 def brute(table):
     r, c = len(table), len(table[0])
+    if min(r, c) <= 2 and max(r, c) > 8:
+        return brute_thin(table if r <= c else [list(col) for col in zip(*table)])
     best = None
     rows, cols = list(range(r)), list(range(c))
     k = min(r, c)
@@ -93,6 +106,27 @@ def brute(table):
         for perm in itertools.permutations(rows, k):
             t = sum(table[perm[j]][j] for j in range(k))
             best = t if best is None or t < best else best
+    return best
+
+
+def short(x):
+    t = repr(x)
+    return t if len(t) <= 400 else t[:300] + f' ...({len(t)} characters)... ' + t[-60:]
+
+
+def brute_thin(rows):
+    """Optimum of a table with one or two rows and many columns (all columns are candidates: exact, not sampled)."""
+    if len(rows) == 1:
+        return min(rows[0])
+    a, b = rows
+    best = None
+    # the best pair uses one of the two cheapest columns of each row
+    ia = sorted(range(len(a)), key=lambda j: a[j])[:2]
+    ib = sorted(range(len(b)), key=lambda j: b[j])[:2]
+    for i in ia:
+        for j in ib:
+            if i != j and (best is None or a[i] + b[j] < best):
+                best = a[i] + b[j]
     return best
 
 
@@ -114,12 +148,12 @@ def evaluate(name, table):
         with time_limit(CASE_TIMEOUT):
             res = min_weight_bipartite_matching(list(range(r)), list(range(c)), lambda a, b: table[a][b])
     except CaseTimeout:
-        return {'key': f'timeout @ min_weight_bipartite_matching : {name}', 'detail': repr(table)}, None
+        return {'key': f'timeout @ min_weight_bipartite_matching : {name}', 'detail': short(table)}, None
     except Exception as ex:  # noqa
         big = max((abs(w) for row in table for w in row if w is not None and not isinstance(w, bool)), default=0)
         mixed = min((w for row in table for w in row if w is not None), default=0) < 0 and big >= 2 ** 63
         feat = 'negative and >= 2**63 weights in one table' if mixed else f'{name} table'
-        return {'key': f'exception {type(ex).__name__} @ {site_of(ex)} : {feat}', 'detail': f'{table!r}: {ex!r}'}, None
+        return {'key': f'exception {type(ex).__name__} @ {site_of(ex)} : {feat}', 'detail': f'{short(table)}: {ex!r}'}, None
     complete = all(w is not None for row in table for w in row)
     tos = [v[0] for v in res.values()]
     big = max((abs(w) for row in table for w in row if w is not None and not isinstance(w, bool)), default=0)
@@ -127,23 +161,23 @@ def evaluate(name, table):
     # scipy solves in float64: exact as long as every partial sum of weights is below 2**53
     feat = 'sum|w| > 2**53' if total_abs > 2 ** 53 else ('sparse' if not complete else f'{name}, sum|w| <= 2**53')
     if len(set(tos)) != len(tos) or any(not (0 <= f < r and 0 <= t < c) for f, (t, _) in res.items()):
-        return {'key': f'not_one_to_one @ min_weight_bipartite_matching : {feat}', 'detail': f'{table!r} -> {res!r}'}, None
+        return {'key': f'not_one_to_one @ min_weight_bipartite_matching : {feat}', 'detail': f'{short(table)} -> {short(res)}'}, None
     for f, (t, w) in res.items():
         if table[f][t] is None:
-            return {'key': f'missing_pair_used @ min_weight_bipartite_matching : {feat}', 'detail': f'{table!r} -> {res!r}'}, None
+            return {'key': f'missing_pair_used @ min_weight_bipartite_matching : {feat}', 'detail': f'{short(table)} -> {short(res)}'}, None
         if w != table[f][t] or type(w) is not type(table[f][t]):
             return {'key': f'reported_weight_wrong @ min_weight_bipartite_matching : {feat}',
-                    'detail': f'{table!r} -> {res!r}: pair ({f},{t}) has weight {table[f][t]!r}'}, None
+                    'detail': f'{short(table)} -> {short(res)}: pair ({f},{t}) has weight {table[f][t]!r}'}, None
     if complete:
         if len(res) != min(r, c):
-            return {'key': f'not_maximal @ min_weight_bipartite_matching : {feat}', 'detail': f'{table!r} -> {res!r}'}, None
+            return {'key': f'not_maximal @ min_weight_bipartite_matching : {feat}', 'detail': f'{short(table)} -> {short(res)}'}, None
         total = sum(w for _, w in res.values())
         opt = brute(table)
         if total != opt:
             if total_abs > 2 ** 53 and not float64_explains(table, res):
                 feat = 'sum|w| > 2**53, but not optimal for the table rounded to float64 either'
             return {'key': f'suboptimal @ min_weight_bipartite_matching->linear_sum_assignment : {feat}',
-                    'detail': f'{table!r} -> {res!r}: total {total}, optimum {opt}'}, None
+                    'detail': f'{short(table)} -> {short(res)}: total {total}, optimum {opt}'}, None
     return None, h((json.dumps(table), sorted((f, t) for f, (t, _) in res.items())))
 
 
